@@ -190,6 +190,10 @@ const ddpvtable *ddp_get_generic_vtable(const ddpany *any);
 		NULL, 0          \
 	}
 
+// the C string of a ddpstring for libc functions:
+// an empty ddpstring may be {NULL, 0} (DDP_EMPTY_STRING) as well as {"\0", 1}
+#define DDP_STRING_CSTR(string) ((string)->str != NULL ? (string)->str : "")
+
 #define DDP_EMPTY_ANY \
 	(ddpany) {        \
 		NULL, {       \
